@@ -43,9 +43,10 @@ type Opts struct {
 }
 
 type Field struct {
-	Key string `json:"key"`
-	T   *Type  `json:"t"`
-	O   *Opts  `json:"o"`
+	Key  string `json:"key"`
+	T    *Type  `json:"t"`
+	O    *Opts  `json:"o"`
+	Anon bool   `json:"anon"` // embedded struct / *struct; O is nil or {opt:true}
 }
 
 type Type struct {
@@ -176,6 +177,19 @@ func build(tagKey string, t *Type) (reflect.Type, error) {
 			ft, err := build(tagKey, f.T)
 			if err != nil {
 				return nil, err
+			}
+			if f.Anon {
+				tag := ""
+				if f.O != nil && f.O.Opt {
+					tag = tagKey + `:",optional"`
+				}
+				fs = append(fs, reflect.StructField{
+					Name:      fmt.Sprintf("E%d", i),
+					Type:      ft,
+					Tag:       reflect.StructTag(tag),
+					Anonymous: true,
+				})
+				continue
 			}
 			fs = append(fs, reflect.StructField{
 				Name: fmt.Sprintf("F%d", i),
